@@ -901,6 +901,17 @@ func c13Lenient(r *rand.Rand) Case {
 	if pn := guard(func() { got = c13Engine.RenderLenient(s, data) }); pn != "" {
 		fail = append(fail, "panic in RenderLenient: "+pn)
 	}
+	// the same text as a leaf of a map (the arguments of a call are rendered that way): unchanged when it
+	// is no template or its rendering fails, rendered otherwise — at any depth
+	if pn := guard(func() {
+		m := c13Engine.RenderMapLenient(map[string]interface{}{"top": s, "sub": map[string]interface{}{"deep": s, "ok": "{{ .x }}"}}, data)
+		sub, _ := m["sub"].(map[string]interface{})
+		if m["top"] != any(c13Engine.RenderLenient(s, data)) || sub == nil || sub["deep"] != m["top"] || sub["ok"] != "X" {
+			fail = append(fail, fmt.Sprintf("RenderMapLenient renders the leaves %q as %v, RenderLenient gives %q", s, m, c13Engine.RenderLenient(s, data)))
+		}
+	}); pn != "" {
+		fail = append(fail, "panic in RenderMapLenient: "+pn)
+	}
 	_, rerr := c13Engine.Render(s, data)
 	// a render that failed half-way leaves nothing behind for the next one
 	if after, aerr := c13Engine.Render("{{ .x }} ok", data); aerr != nil || after != "X ok" {
